@@ -309,7 +309,7 @@ pub fn run(ctx: &mut Ctx) {
     }
     // neighbours of 2^53..2^64 as floats and ints
     for p in 53..=64u32 {
-        let base = 2f64.powi(p as i32);
+        let base = crate::refnum::pow2(p);
         for d in [-1i64, 0, 1] {
             let fb = (base.to_bits() as i64 + d) as u64;
             pool.push(Num::F(fb));
